@@ -260,6 +260,17 @@ def core_alphabet(w, w0):
     return core_numeric(w, w0) + H.link_letters(w) + H.list_letters(w) + multi_letters(w)
 
 
+def dep2_alphabet(w, w0):
+    """Small alphabet for exhaustive depth 2: the inputs of the per-usage-pattern dictionaries and every re-pointable link."""
+    attrs = {"hourly_usage_journey_starts", "timezone", "user_time_spent", "request_duration", "data_transferred", "data_stored"}
+    seen, nums = set(), []
+    for e in core_numeric(w, w0):
+        if e[2] in attrs and (e[1], e[2]) not in seen:
+            seen.add((e[1], e[2]))
+            nums.append(e)
+    return nums + H.link_letters(w)
+
+
 def make_alphabet(fam, mode_by_depth):
     w0 = W.family(fam)
 
@@ -268,6 +279,8 @@ def make_alphabet(fam, mode_by_depth):
         mode = mode_by_depth.get(depth, "core")
         if mode == "pairs":
             return pairs_alphabet(w, w0)
+        if mode == "dep2":
+            return dep2_alphabet(w, w0)
         return full_alphabet(w, w0) if mode == "full" else core_alphabet(w, w0)
     return alphabet_of
 
@@ -278,8 +291,8 @@ CAMPAIGNS = {
          "modes": {1: "full"}},
         {"world": "W2", "schedules": ("rev", 0), "depth": 1, "modes": {1: "full"}},
         {"world": "W3", "schedules": ("rev", 0), "depth": 1, "modes": {1: "full"}},
-        {"world": "W3", "schedules": ("default", 0), "depth": 2, "modes": {1: "core", 2: "core"}, "max": 900},
-        {"world": "W2", "schedules": ("default", 0), "depth": 2, "modes": {1: "core", 2: "core"}, "max": 900},
+        {"world": "W2", "schedules": ("default", 0), "depth": 2, "modes": {1: "dep2", 2: "dep2"}},
+        {"world": "W3", "schedules": ("default", 0), "depth": 2, "modes": {1: "dep2", 2: "dep2"}, "max": 900},
     ],
     "thorough": [
         {"world": "W1", "schedules": ("dev", 2), "depth": 1, "modes": {1: "full"}},
